@@ -24,7 +24,8 @@ fn float_equals_int(float_value: f64, int_value: i64) -> bool {
     if float_value.is_nan() || !float_value.is_finite() {
         return false;
     }
-    float_value == int_value as f64
+    super::evaluator_numeric::compare_int_float(int_value, float_value)
+        == Some(std::cmp::Ordering::Equal)
 }
 
 fn cypher_equals_sequence(left: &[Value], right: &[Value]) -> Value {
